@@ -4,6 +4,7 @@ package main
 // (behaviour per path).  Every request is counted.
 
 import (
+	"sync/atomic"
 	"crypto"
 	"io"
 	"net"
@@ -102,6 +103,19 @@ type OCSPSigner struct {
 	Key       crypto.Signer
 }
 
+var chunkToggle int32
+
+// writeBody writes an HTTP body; every second call flushes the headers first, so that the response carries no
+// Content-Length (chunked transfer coding) — how the body is framed must not matter to the client.
+func writeBody(w http.ResponseWriter, b []byte) {
+	if atomic.AddInt32(&chunkToggle, 1)%2 == 0 {
+		if f, ok := w.(http.Flusher); ok {
+			f.Flush()
+		}
+	}
+	w.Write(b)
+}
+
 // ServeOCSP answers every request on path with the given behaviour for (issuer, leaf serial).
 func (o *Origin) ServeOCSP(path string, ca *CA, behave func(attempt int) OCSPBehaviour, nextUpdate func() time.Time) {
 	o.Route(path, func(attempt int, w http.ResponseWriter, r *http.Request) {
@@ -134,6 +148,6 @@ func (o *Origin) ServeOCSP(path string, ca *CA, behave func(attempt int) OCSPBeh
 		resp, err := ocsp.CreateResponse(ca.Cert, ca.Cert, tmpl, ca.Key)
 		mustNoErr(err)
 		w.Header().Set("Content-Type", "application/ocsp-response")
-		w.Write(resp)
+		writeBody(w, resp)
 	})
 }
